@@ -9,7 +9,7 @@
 From XcpModel Require Import Base ConcBlock ConcFile.
 From XcpProofs Require Import ConcBlockProofs ConcFileProofs.
 From XcpModel Require Import Extracted.
-From XcpProofs Require Import ExtractedOk.
+From XcpProofs Require Import XBlocks XConfig.
 From Coq Require Import Lia.
 From XcpProofs Require Import PinnedSource.
 From XcpPins Require Import Pin_parfile_copy_worker Pin_parblock_queue_file_range Pin_parblock_dispatch_worker.
@@ -57,3 +57,24 @@ Print Assumptions C20_src_pool_queue_len.
 Print Assumptions C20_src_pin_parfile_copy_worker.
 Print Assumptions C20_src_pin_parblock_queue_file_range.
 Print Assumptions C20_src_pin_parblock_dispatch_worker.
+
+(* ---- further glue on this property's path, pinned token for token (an edit re-opens the obligation; the run then
+   looks for a failing input) ---- *)
+From XcpPins Require Import Pin_operations_finalise_copy Pin_operations_drop Pin_parfile_copy Pin_parblock_copy.
+Theorem C20_src_pin_operations_finalise_copy : pin_unchanged name_operations_finalise_copy.
+Proof. exact pin_operations_finalise_copy. Qed.
+Theorem C20_src_pin_operations_drop : pin_unchanged name_operations_drop.
+Proof. exact pin_operations_drop. Qed.
+Theorem C20_src_pin_parfile_copy : pin_unchanged name_parfile_copy.
+Proof. exact pin_parfile_copy. Qed.
+Theorem C20_src_pin_parblock_copy : pin_unchanged name_parblock_copy.
+Proof. exact pin_parblock_copy. Qed.
+(* the worker count both drivers start with is >= 1 whatever -w says (0 = one per CPU; a machine has >= 1): the
+   hypothesis `1 <= W` of the driver theorems, from the two translated definitions *)
+Theorem C20_src_workers_at_least_one : forall w ncpus, (1 <= ncpus)%N -> (1 <= x_num_workers (x_config_workers w ncpus) ncpus)%N.
+Proof. exact x_workers_at_least_one. Qed.
+Print Assumptions C20_src_workers_at_least_one.
+Print Assumptions C20_src_pin_operations_finalise_copy.
+Print Assumptions C20_src_pin_operations_drop.
+Print Assumptions C20_src_pin_parfile_copy.
+Print Assumptions C20_src_pin_parblock_copy.
